@@ -317,7 +317,10 @@ Section Universe.
       unfold dec_OnKill. apply safe_bind; [apply safe_ref|intros ?]. safe_tac.
     - revert H. apply safe_bind; [apply safe_ref|intros ?]. safe_tac.
     - (* PipeResult *)
-      apply drun_bind_inv in H as [(e' & H1 & [= ->])|(m & bs1 & H1 & H)]; [apply (Hrm bs e'); [lia|exact H1]|].
+      apply drun_bind_inv in H as [(e' & H0 & [= ->])|(has & bs0 & H0 & H)]; [eapply (safe_dlift rd_bool); exact H0|].
+      pose proof (addb_shrinks _ _ addb_bool _ _ _ H0) as L0.
+      destruct has; [|revert H; safe_tac].
+      apply drun_bind_inv in H as [(e' & H1 & [= ->])|(m & bs1 & H1 & H)]; [apply (Hrm bs0 e'); [lia|exact H1]|].
       revert H. safe_tac.
     - revert H. unfold dec_Pong. safe_tac.
     - revert H. unfold dec_Error. safe_tac.
@@ -372,10 +375,12 @@ Section Universe.
 
   Theorem enc_body_safe : forall (m : msg) e, enc_body m = MErr e -> ~ bad e.
   Proof.
-    induction m as [e0|k r p|k|id m' IH pe|p r|c t|c|t|p r|ref m' IH|ns tok|v|v|v q l|r|d|id tok|tok|s a p m' IH|k|u];
+    induction m as [e0|k r p|k|id m' IH pe|id pe|p r|c t|c|t|p r|ref m' IH|ns tok|v|v|v q l|r|d|id tok|tok|s a p m' IH|k|u];
       intros e; cbn [Msgs.enc_body]; try discriminate.
     - intros H. apply mbind_inv in H as [H|(w & _ & H)]; [apply (wm_safe_of m' IH e H)|].
       apply mbind_inv in H as [H|(ct & _ & H)]; [|discriminate].
+      destruct pe; cbn in H; try discriminate. injection H as <-. intros [X|X]; discriminate.
+    - intros H. apply mbind_inv in H as [H|(ct & _ & H)]; [|discriminate].
       destruct pe; cbn in H; try discriminate. injection H as <-. intros [X|X]; discriminate.
     - destruct p; cbn; [discriminate|]. intros [= <-] [X|X]; discriminate.
     - intros H. apply mbind_inv in H as [H|(w & _ & H)]; [apply (wm_safe_of m' IH e H)|discriminate].
@@ -462,7 +467,7 @@ Section UniverseAlloc.
     destruct k; cbn [Msgs.dec_body]; try apply linb_dret.
     - unfold dec_OnKill. apply linb_bind; [apply linb_bind; [apply linb_ref|intros ?]; linb10|intros ?]. linb10.
     - unfold dec_OnKilled. apply linb_bind; [apply linb_ref|intros ?]. linb10.
-    - apply linb_bind; [exact Hrm|intros ?]. linb10.
+    - apply linb_bind; [linb10|intros has]. destruct has; [apply linb_bind; [exact Hrm|intros ?]|]; linb10.
     - unfold dec_Pong. linb10.
     - unfold dec_Error. linb10.
     - unfold dec_Command. linb10.
